@@ -643,7 +643,8 @@ static void enumerate_program(int pi, const pos_t * rs) {
 	  int nf0 = resuming ? rs->nf : 1, oi0 = resuming ? rs->oi + 1 : 0;
 	  if (resuming && rs->have_base) { HAVE_BASE = 1; memcpy(BASE, rs->base, sizeof BASE); } else HAVE_BASE = 0;
 	  resuming = 0;
-	  for (int nf = nf0; nf <= NFMAX; nf++, oi0 = 0) {
+	  static int count_only = -1; if (count_only < 0) count_only = getenv("DAG_COUNT_ONLY") != NULL;     /* development aid */
+	  for (int nf = nf0; nf <= NFMAX && !count_only; nf++, oi0 = 0) {
 	    if (oi0 == 0) HAVE_BASE = 0;
 	    for (int oi = oi0; oi < NOPTS; oi++) {
 	      CASE.nf = nf; CASE.oi = oi; CASE.opt = OPTS[oi];
@@ -668,7 +669,8 @@ static void worker_main(int k, const pos_t * rs) {
   char lf[260]; snprintf(lf, sizeof lf, "build/%s/scratch/w%d.log", COMPONENT, k);
   LOGFD = open(lf, O_RDWR | O_CREAT | O_TRUNC | O_APPEND, 0644);
   if (LOGFD >= 0) { fflush(NULL); dup2(LOGFD, 1); dup2(LOGFD, 2); }
-  snprintf(SCRATCH, sizeof SCRATCH, "build/%s/scratch/w%d", COMPONENT, k);
+  snprintf(SCRATCH, sizeof SCRATCH, "build/%s/scratch/w%d", COMPONENT, k); mkdir(SCRATCH, 0755);   /* a directory per worker: no contention on one directory lock */
+  snprintf(SCRATCH, sizeof SCRATCH, "build/%s/scratch/w%d/dr", COMPONENT, k);
   SLOT = &SLOTS[k];
   if (rs) enumerate_program(rs->p, rs);
   for (;;) {
@@ -752,6 +754,7 @@ static int dag_main(int argc, char ** argv, const char * property, const char * 
   set_tier(thorough, nfq, nft);
   if (nproc <= 0) { nproc = (int)sysconf(_SC_NPROCESSORS_ONLN); if (nproc > 16) nproc = 16; if (nproc < 1) nproc = 1; }
   NPROC = nproc;
+  if (getenv("DAG_LIMIT")) { long l = atol(getenv("DAG_LIMIT")); if (l > 0 && l < NPROGS) { NPROGS = l; SQ.exhaustive = 0; } }   /* development aid only */
   SLOTS = mmap(NULL, sizeof(slot_t) * NPROC + 64, PROT_READ | PROT_WRITE, MAP_SHARED | MAP_ANONYMOUS, -1, 0);
   if (SLOTS == MAP_FAILED) { perror("mmap"); SQ.engine_error = 1; return sq_end(stats); }
   NEXT_PROG = (volatile long *)&SLOTS[NPROC];
